@@ -67,8 +67,17 @@ def run(ctx):
         name, over = CONFIGS[i % len(CONFIGS)]
         tasks.append((program_task, dict(name='prog-%s-%d' % (name, i), seed=ctx.seed + 200 + i, modes='priv4',
                                          cfg=over, programs=20 if q else 300)))
+    # memory accesses that go through an enabled MMU / MPU: every descriptor kind of the short- and long-descriptor walks,
+    # MPU region tables, faulting and non-faulting - the translation code must not die on any of them either
+    from . import c14, c15
+    for i in range(4):
+        tasks.append((c15.vmsa_task, dict(name='xl-vmsa-%d' % i, seed=ctx.seed + 300 + i, tables=2 if q else 40, per_table=40)))
+        tasks.append((c15.vmsa_ld_task, dict(name='xl-lpae-%d' % i, seed=ctx.seed + 320 + i, tables=2 if q else 30, per_table=40)))
+        tasks.append((c14.instr_task, dict(name='xl-mpu-instr-%d' % i, seed=ctx.seed + 340 + i, n=300 if q else 8000, modes='all',
+                                           cfg={'arch_version': 6 + i % 2})))
     groups = C.parallel(_dispatch, tasks)
-    res = C.judge_groups(ctx, groups, clause_filter, rnd=rnd,
+    ctx.extra['translated_access_events'] = sum(len(g.events) for g in groups if g.name.startswith('xl-'))
+    res = C.judge_groups(ctx, groups, clause_filter, rnd=rnd, chunk=1500,
                          site_of=lambda e, v: (e.get('tb', '').split(' ')[0] or e.get('cls') or v['path']),
                          tags_of=lambda g, e, v: dict(D.tags_of(g, e, v), cfg=g.name.split('-')[1] if '-' in g.name else g.name,
                                                       tb=e.get('tb', ''), out=e['out']))
@@ -78,7 +87,8 @@ def run(ctx):
     ctx.extra['t16_words_x_itpos_events'] = t16
     ctx.extra['rule'] = ('all 2^16 16-bit Thumb words (quick: one IT position per word, thorough: outside / inside / '
                          'last), random + pattern-filled ARM and 32-bit Thumb words, random programs; modes usr/svc/'
-                         'fiq/mon; configurations %s; MPU off and permissive-on; every event judged by Trace_Step '
+                         'fiq/mon; configurations %s; MPU off and permissive-on; translate_address() and LDR/STR through random short- and '
+                         'long-descriptor page tables and load/store words against random MPU region tables; every event judged by Trace_Step '
                          '(clauses hosterror, outcome)' % [c[0] for c in CONFIGS])
     outs = {}
     for g, e, v in res:
